@@ -119,6 +119,15 @@ def reserveGet (s : BufStore) (proc : Nat) : BufStore × Res :=
   let t : Tok := { id := s.nextTid, proc := proc }
   (({ s with nextTid := s.nextTid + 1, getQ := s.getQ ++ [t] }).trigGet, .tok t.id)
 
+/-- FleetStore.reserve_put(priority): the queue is re-sorted (stably) by priority after the append -/
+def reservePutP (s : BufStore) (proc : Nat) (prio : Int) : BufStore × Res :=
+  let t : Tok := { id := s.nextTid, proc := proc, prio := prio }
+  (({ s with nextTid := s.nextTid + 1, putQ := stableSort (s.putQ ++ [t]) }).trigPut, .tok t.id)
+
+def reserveGetP (s : BufStore) (proc : Nat) (prio : Int) : BufStore × Res :=
+  let t : Tok := { id := s.nextTid, proc := proc, prio := prio }
+  (({ s with nextTid := s.nextTid + 1, getQ := stableSort (s.getQ ++ [t]) }).trigGet, .tok t.id)
+
 def capRoom (s : BufStore) : Bool :=
   match s.cfg.cap with
   | none => true
